@@ -96,10 +96,10 @@ impl CommandAcknowledgement {
 impl CommandAcknowledgementHandle {
     /// Marks the flag to indicate that the command execution is done and changes the `CommandStatus`
     pub(crate) fn done(&self, status: CommandStatus) {
-        self.done.store(true, Ordering::Release);
+        *self.status.lock() = status;
         #[cfg(feature = "verif")]
         crate::cache::verif::point(crate::cache::verif::Site::AckDoneBetweenStores);
-        *self.status.lock() = status;
+        self.done.store(true, Ordering::Release);
         #[cfg(feature = "verif")]
         crate::cache::verif::point(crate::cache::verif::Site::AckDoneBeforeWake);
         if let Some(waker) = &self.waker_state.lock().waker {
